@@ -7,8 +7,9 @@
    with the flags found in the current source.  Strings are lists of 16-bit units (small) that XML
    can represent (wf_text: Chars of the version, surrogates in pairs). *)
 From Coq Require Import NArith List Bool.
-Require Import XV.GenSerLegacy XV.SerDefs XV.XmlParseDefs XV.SerEscModel XV.SerLegacyDefs XV.SerLegacyModel
-               XV.SerLegacyModel2 XV.SerLegacyCdata XV.SerLegacyAgree.
+Require Import XV.GenSerLegacy XV.SerDefs XV.XmlParseDefs XV.XmlDocDefs XV.SerDocDefs XV.SerEscModel
+               XV.SerLegacyDefs XV.SerLegacyModel XV.SerLegacyModel2 XV.SerLegacyCdata XV.SerLegacyAgree
+               XV.SerLegacyMarkup XV.SerLegacyFails.
 Import ListNotations.
 Local Open Scope N_scope.
 
@@ -171,10 +172,129 @@ Example legacy_error_hypotheses_satisfiable :
 Proof. repeat split; vm_compute; reflexivity. Qed.
 Print Assumptions legacy_error_hypotheses_satisfiable.
 
-(* comments and processing instructions: the legacy serializer checks nothing there (finding K-new-8):
-   a character outside the encoding becomes a character reference inside the comment, which a reader
-   takes as the seven characters themselves *)
-Theorem legacy_comment_writes_a_reference_witness :
-  lg_write_comment (mklcfg 255 false true true) [97; 8364] = [60; 33; 45; 45; 97] ++ charref 8364 ++ [45; 45; 62].
-Proof. vm_compute. reflexivity. Qed.
-Print Assumptions legacy_comment_writes_a_reference_witness.
+(* ---- comments, processing instructions, names (chk = GenSerLegacy.legacy_checks_comment_pi_names) ------ *)
+(* a comment that C04's guard comment_ok accepts (Chars, paired surrogates, no character a parser
+   would change, no "--", no trailing '-') and whose units are all in the encoding is written
+   verbatim and the model tokenizer reads it back as that comment - in both variants *)
+Theorem legacy_comment_roundtrip : forall g, lg_max_ok (lc_max g) = true ->
+  forall chk s rest f, comment_ok (lc_v11 g) s = true -> forallb (rep_g g) s = true ->
+  exists bs, lg_comment g chk s = Ok bs /\
+             tokens (lc_v11 g) (S f) (bs ++ rest) = option_map (cons (PM s)) (tokens (lc_v11 g) f rest).
+Proof. exact comment_roundtrip_any. Qed.
+Print Assumptions legacy_comment_roundtrip.
+
+Theorem legacy_pi_roundtrip : forall g, lg_max_ok (lc_max g) = true ->
+  forall chk t d rest f, pi_ok (lc_v11 g) t d = true ->
+  forallb (rep_g g) t = true -> forallb (rep_g g) d = true ->
+  exists bs, lg_pi g chk t d = Ok bs /\
+             tokens (lc_v11 g) (S f) (bs ++ rest) = option_map (cons (PP t d)) (tokens (lc_v11 g) f rest).
+Proof. exact pi_roundtrip_any. Qed.
+Print Assumptions legacy_pi_roundtrip.
+
+Theorem legacy_comment_roundtrip_this_tree : forall maxc v11 s rest f, lg_max_ok maxc = true ->
+  comment_ok v11 s = true -> forallb (rep_g (lg_this_tree maxc v11)) s = true ->
+  exists bs, lg_comment (lg_this_tree maxc v11) lg_chk_this_tree s = Ok bs /\
+             tokens v11 (S f) (bs ++ rest) = option_map (cons (PM s)) (tokens v11 f rest).
+Proof. exact comment_roundtrip_tree. Qed.
+Print Assumptions legacy_comment_roundtrip_this_tree.
+
+Theorem legacy_pi_roundtrip_this_tree : forall maxc v11 t d rest f, lg_max_ok maxc = true ->
+  pi_ok v11 t d = true -> forallb (rep_g (lg_this_tree maxc v11)) t = true ->
+  forallb (rep_g (lg_this_tree maxc v11)) d = true ->
+  exists bs, lg_pi (lg_this_tree maxc v11) lg_chk_this_tree t d = Ok bs /\
+             tokens v11 (S f) (bs ++ rest) = option_map (cons (PP t d)) (tokens v11 f rest).
+Proof. exact pi_roundtrip_tree. Qed.
+Print Assumptions legacy_pi_roundtrip_this_tree.
+
+(* with the repair (chk = true) the data of a comment / PI is written verbatim or not at all, and
+   exactly when it has paired surrogates, every unit in the encoding, and no character that survives
+   parsing only as a reference (the test equals FormatterToXMLUnicode's: ref_only_is_comment_error) *)
+Theorem legacy_comment_ok_iff : forall g, lg_max_ok (lc_max g) = true -> forall s bs,
+  lg_comment g true s = Ok bs <-> (markup_ok g s = true /\ bs = [60; 33; 45; 45] ++ s ++ [45; 45; 62]).
+Proof. exact comment_iff. Qed.
+Print Assumptions legacy_comment_ok_iff.
+
+Theorem legacy_pi_ok_iff : forall g, lg_max_ok (lc_max g) = true -> forall t d bs,
+  lg_pi g true t d = Ok bs <->
+  (forallb (rep_g g) t = true /\ markup_ok g d = true /\ bs = [60; 63] ++ t ++ pi_sep d ++ d ++ [63; 62]).
+Proof. exact pi_iff. Qed.
+Print Assumptions legacy_pi_ok_iff.
+
+Theorem legacy_reference_only_test_is_unicodes : forall v11 c, c <> 0 -> ref_only v11 c = p_comment_error v11 c.
+Proof. exact ref_only_is_comment_error. Qed.
+Print Assumptions legacy_reference_only_test_is_unicodes.
+
+(* ... without it (K-new-8): a reference inside the comment / PI is read back as text, a CR as LF,
+   a name unit outside the encoding becomes '?'; the repaired variant raises the exceptions instead *)
+Theorem legacy_comment_roundtrip_refuted :
+  lg_comment (mklcfg 255 false true true) false [97; 8364] = Ok ([60; 33; 45; 45; 97] ++ charref 8364 ++ [45; 45; 62]) /\
+  tokens false 40 ([60; 33; 45; 45; 97] ++ charref 8364 ++ [45; 45; 62]) = Some [PM (97 :: charref 8364)] /\
+  comment_ok false [97; 8364] = true /\
+  lg_comment (mklcfg 255 false true true) true [97; 8364] = Thrown err_unrepresentable /\
+  lg_comment (mklcfg 65535 false true true) false [120; 13; 121] = Ok [60; 33; 45; 45; 120; 13; 121; 45; 45; 62] /\
+  tokens false 40 [60; 33; 45; 45; 120; 13; 121; 45; 45; 62] = Some [PM [120; 10; 121]] /\
+  lg_comment (mklcfg 65535 false true true) true [120; 13; 121] = Thrown err_forbidden.
+Proof. exact comment_roundtrip_refuted. Qed.
+Print Assumptions legacy_comment_roundtrip_refuted.
+
+Theorem legacy_pi_roundtrip_refuted :
+  lg_pi (mklcfg 255 false true true) false [112] [97; 8364] = Ok ([60; 63; 112; 32; 97] ++ charref 8364 ++ [63; 62]) /\
+  tokens false 40 ([60; 63; 112; 32; 97] ++ charref 8364 ++ [63; 62]) = Some [PP [112] (97 :: charref 8364)] /\
+  lg_pi (mklcfg 255 false true true) true [112] [97; 8364] = Thrown err_unrepresentable /\
+  lg_name_r (mklcfg 127 false true true) false [110; 233] = Ok [110; 63] /\
+  lg_name_r (mklcfg 127 false true true) true [110; 233] = Thrown err_unrepresentable.
+Proof. exact pi_roundtrip_refuted. Qed.
+Print Assumptions legacy_pi_roundtrip_refuted.
+
+(* agreement with FormatterToXMLUnicode in comments and PIs: what the legacy serializer writes, the
+   UTF-16 writer of the other serializer writes unit for unit; and with m_maxCharacter = 0xFFFF the two
+   succeed / fail together on ARBITRARY unit strings (no U+0000) *)
+Theorem legacy_agrees_with_unicode_in_comments : forall g, lg_max_ok (lc_max g) = true -> forall s bs,
+  ~ In 0 s -> lg_comment g true s = Ok bs -> payload (write_comment fam_utf16 (lc_v11 g) s) = Ok bs.
+Proof. exact comment_legacy_ok_unicode_same. Qed.
+Print Assumptions legacy_agrees_with_unicode_in_comments.
+
+Theorem legacy_agrees_with_unicode_in_pis : forall g, lg_max_ok (lc_max g) = true -> forall t d bs,
+  ~ In 0 d -> lg_pi g true t d = Ok bs -> payload (write_pi fam_utf16 (lc_v11 g) t d) = Ok bs.
+Proof. exact pi_legacy_ok_unicode_same. Qed.
+Print Assumptions legacy_agrees_with_unicode_in_pis.
+
+Theorem legacy_comment_fails_iff_unicode_fails : forall g, lg_max_ok (lc_max g) = true -> forall s,
+  65535 <= lc_max g -> small s = true -> ~ In 0 s ->
+  ((exists bs, lg_comment g true s = Ok bs) <-> (exists bs, payload (write_comment fam_utf16 (lc_v11 g) s) = Ok bs)).
+Proof. exact comment_fails_iff_unicode_fails. Qed.
+Print Assumptions legacy_comment_fails_iff_unicode_fails.
+
+Example legacy_comment_hypotheses_satisfiable :
+  comment_ok false [97; 233; 10; 9; 45; 98] = true /\ forallb (rep_g (mklcfg 255 false true true)) [97; 233; 10; 9; 45; 98] = true /\
+  pi_ok true [112; 105] [100; 61; 34; 233; 34] = true /\ markup_ok (mklcfg 65535 true true true) [97; 55357; 56832] = true /\
+  markup_ok (mklcfg 255 true true true) [97; 133] = false.
+Proof. repeat split; vm_compute; reflexivity. Qed.
+Print Assumptions legacy_comment_hypotheses_satisfiable.
+
+(* ---- fails iff fails, arbitrary strings ---------------------------------------------------------- *)
+(* FormatterToXMLUnicode's UTF-16 writer writes a text node (attr = false) / attribute value (attr = true)
+   exactly when the surrogates are paired and no character is forbidden ... *)
+Theorem unicode_text_ok_iff : forall attr v11 n s, (length s <= n)%nat ->
+  okres (payload (uw attr v11 s)) = u_ok v11 s.
+Proof. exact unicode_ok_iff. Qed.
+Print Assumptions unicode_text_ok_iff.
+
+(* ... and so does the legacy serializer with the repair 11-K-new-4, for every m_maxCharacter: the two
+   succeed and fail together on ARBITRARY strings of 16-bit units without U+0000 *)
+Theorem legacy_fails_iff_unicode_fails_everywhere : forall g attr s, lg_max_ok (lc_max g) = true ->
+  lc_surfix g = true -> small s = true -> ~ In 0 s ->
+  okres (lg_loop g attr s) = okres (payload (uw attr (lc_v11 g) s)).
+Proof. exact fails_iff_unicode_fails. Qed.
+Print Assumptions legacy_fails_iff_unicode_fails_everywhere.
+
+Theorem legacy_fails_iff_unicode_fails_everywhere_refuted :
+  okres (lg_loop (mklcfg 65535 false true false) false [97; 56832]) = true /\
+  okres (payload (uw false false [97; 56832])) = false.
+Proof. exact fails_iff_unicode_fails_refuted. Qed.
+Print Assumptions legacy_fails_iff_unicode_fails_everywhere_refuted.
+
+Example legacy_fails_everywhere_instances :
+  u_ok false [97; 65534; 55357; 56832] = true /\ u_ok false [97; 1] = false /\ u_ok true [97; 1] = true /\
+  u_ok true [55357; 98] = false /\ l_ok false [97; 31] = false.
+Proof. repeat split; vm_compute; reflexivity. Qed.
